@@ -162,6 +162,16 @@ def run_case(args):
     b = R.randint(a, n)
     loc = R.choice(['', '', '', '%', '%d,%d' % (a, b), '%d,$' % a, '1,%d' % b, '%d,%d' % (a, b)] + (['1,/%s/' % R.choice(['a', 'o', 'x']), '/%s/,$' % R.choice(['a', 'o', 'b']), '/%s/,/%s/' % (R.choice(['a', 'o']), R.choice(['x', 'b', 'foo'])), '?%s?,$' % R.choice(['a', 'o'])] if idx % 4 == 0 else []))
     cmds = gen_list(R)
+    if not big and R.random() < 0.04:
+        # globals nested up to the seventh level (the deepest the per-line mark set has a bit for), the innermost with a range of its own
+        inner = {'cmd': R.choice(['g', 'v']), 'loc': R.choice(['2,$', '1,$', '.,$', '1,.', '%d,%d' % (a, b)]), 'pat': R.choice(PATS), 'list': [{'cmd': 's', 'loc': '', 'pat': '$', 'rep': R.choice('!+#'), 'g': False}]}
+        for _ in range(R.choice([1, 3, 4, 5, 5])):
+            inner = {'cmd': 'g', 'loc': '', 'pat': R.choice(['.', '.', '^', 'a*', 'x*']), 'list': [inner]}
+        cmds = [inner]
+        n = min(n, 5)
+        lines = lines[:n]
+        a, b = min(a, n), min(b, n)
+        loc = R.choice(['', '%', '1,%d' % n])
     if big:
         cmds = R.choice([[{'cmd': 'y', 'loc': '', 'arg': ''}, {'cmd': 'pu', 'loc': '', 'arg': ''}],
                          [{'cmd': 's', 'loc': '', 'pat': '$', 'rep': '!', 'g': False}, {'cmd': 'y', 'loc': '', 'arg': ''}, {'cmd': 'pu', 'loc': '', 'arg': ''}],
